@@ -54,6 +54,9 @@ thread_local! {
 
 pub const MODE_ROTATE: u8 = 1;
 pub const MODE_LISTMAP: u8 = 2;
+/// the five extension functions are the type's own, written from their documented meaning (an element
+/// is listed if it `==` an element of the list), not delegated to Value's
+pub const MODE_OWN_EXT: u8 = 4;
 thread_local! {
     static MODE: Cell<u8> = const { Cell::new(0) };
     static ROTATION: Cell<usize> = const { Cell::new(0) };
@@ -440,6 +443,37 @@ impl<const P: usize> Queryable for Sim<P> {
             uniq.dedup();
             let ok = uniq.len() == paths.len() && paths.len() == vals && with.iter().all(|p| p.starts_with("$[")) && paths.iter().all(|p| p.starts_with("$["));
             return Sim::Bool(paths.len() >= 2 && ok);
+        }
+        if mode() & MODE_OWN_EXT != 0 && ["in", "nin", "none_of", "any_of", "subset_of"].contains(&name) {
+            let arr = |x: &Sim<P>| -> Option<Vec<Sim<P>>> {
+                match x {
+                    Sim::Arr(a) => Some(a.clone()),
+                    _ => None,
+                }
+            };
+            return match (name, args.as_slice()) {
+                ("in", [l, r]) => match arr(r.as_ref()) {
+                    Some(es) => Sim::Bool(es.iter().any(|e| e.quiet_eq(l.as_ref()))),
+                    None => Sim::Null,
+                },
+                ("nin", [l, r]) => match arr(r.as_ref()) {
+                    Some(es) => Sim::Bool(!es.iter().any(|e| e.quiet_eq(l.as_ref()))),
+                    None => Sim::Null,
+                },
+                ("none_of", [l, r]) => match (arr(l.as_ref()), arr(r.as_ref())) {
+                    (Some(ls), Some(rs)) => Sim::Bool(ls.iter().all(|x| !rs.iter().any(|y| x.quiet_eq(y)))),
+                    _ => Sim::Null,
+                },
+                ("any_of", [l, r]) => match (arr(l.as_ref()), arr(r.as_ref())) {
+                    (Some(ls), Some(rs)) => Sim::Bool(ls.iter().any(|x| rs.iter().any(|y| x.quiet_eq(y)))),
+                    _ => Sim::Null,
+                },
+                ("subset_of", [l, r]) => match (arr(l.as_ref()), arr(r.as_ref())) {
+                    (Some(ls), Some(rs)) => Sim::Bool(ls.iter().all(|x| rs.iter().any(|y| x.quiet_eq(y)))),
+                    _ => Sim::Null,
+                },
+                _ => Sim::Null,
+            };
         }
         if personality().keeps_provided_extension() {
             // what a type that keeps the provided method gets: sampled from a type that does keep it
